@@ -104,12 +104,12 @@ def half_crystal(pbc=(True, False, True)):
     return s0, pos0, upper, yplane, pbc
 
 
-def h_slip(translate, permute, pbc=(True, False, True)):
+def h_slip(translate, permute, pbc=(True, False, True), wrap=False):
     def fn():
         import atomman as am
         s0, pos0, upper, yplane, _ = half_crystal(pbc)
         n = s0.natoms
-        S = [var(f's{j}', -0.2 * A, 0.2 * A) for j in range(3)]
+        S = [var(f's{j}', -0.2 * A, 0.2 * A) for j in range(3)] if not wrap else [var('s0', -0.2 * A, -0.02 * A), var('s1', -0.2 * A, 0.2 * A), var('s2', -0.2 * A, -0.02 * A)]
         T = [var(f't{j}', -0.5 * A, 0.5 * A) for j in range(3)] if translate else [0.0, 0.0, 0.0]
         perm = list(range(n))
         if permute: perm = perm[5:] + perm[:5]
@@ -120,6 +120,17 @@ def h_slip(translate, permute, pbc=(True, False, True)):
                 p1[new, j] = pos0[old, j] + T[j] + (S[j] if upper[old] else 0.0)
         box = s0.box
         a0 = am.System(atoms=am.Atoms(pos=sa(p0)), box=box, pbc=pbc); a1 = am.System(atoms=am.Atoms(pos=sa(p1)), box=box, pbc=pbc)
+        if wrap:
+            # the slipped system as wrap() leaves it: the slip has negative x and z components here, so exactly the slipped atoms that sat
+            # on the lower x / z faces left the cell and are stored one cell vector higher; the slip vector is taken through the boundary
+            Vb = np.array(box.vects, dtype=float)
+            for new, old in enumerate(perm):
+                if upper[old]:
+                    if abs(pos0[old, 2]) < 1e-9:
+                        for j in range(3): p1[new, j] = p1[new, j] + float(Vb[2, j])
+                    if abs(pos0[old, 0]) < 1e-9:
+                        for j in range(3): p1[new, j] = p1[new, j] + float(Vb[0, j])
+            a1 = am.System(atoms=am.Atoms(pos=sa(p1)), box=box, pbc=pbc)
         # neighbour list of the (concrete) reference crystal, renumbered consistently
         nl = am.NeighborList(system=am.System(atoms=am.Atoms(pos=pos0[perm]), box=box, pbc=pbc), cutoff=0.9 * A)
         slip = am.defect.slip_vector(a0, a1, neighbors=nl)
@@ -147,6 +158,30 @@ def h_disregistry():
         coord, dis = am.defect.disregistry(s0, s1, m=[1, 0, 0], n=[0, 1, 0], planepos=[0, yplane, 0])
         ob = [('disregistry: one vector per in-plane coordinate', np.shape(dis) == (len(coord), 3) and len(coord) >= 2)]
         ob.append(('disregistry across the slip plane == the imposed slip at every coordinate', band(*[close(dis[i, j], S[j], 1e-9, 10.0) for i in range(len(coord)) for j in range(3)])))
+        return ob
+    return fn
+
+
+def h_disregistry_z():
+    """slip plane normal along z (n = [0,0,1], planepos given by its z component): the plane position is planepos . n"""
+    def fn():
+        import atomman as am
+        pbc = (True, True, False)
+        s0 = reference(pbc)
+        pos0 = np.array(s0.atoms.pos, dtype=float)
+        zs = np.unique(np.round(pos0[:, 2], 8))
+        zplane = (zs[len(zs) // 2 - 1] + zs[len(zs) // 2]) / 2
+        upper = pos0[:, 2] > zplane
+        n = s0.natoms
+        S = [var(f's{j}', -0.2 * A, 0.2 * A) for j in range(3)]
+        p1 = pos0.astype(object)
+        for i in range(n):
+            if upper[i]:
+                for j in range(3): p1[i, j] = pos0[i, j] + S[j]
+        s1 = am.System(atoms=am.Atoms(pos=sa(p1)), box=s0.box, pbc=pbc)
+        coord, dis = am.defect.disregistry(s0, s1, m=[1, 0, 0], n=[0, 0, 1], planepos=[0.3, 0.9, zplane])
+        ob = [('disregistry (plane normal z): one vector per in-plane coordinate', np.shape(dis) == (len(coord), 3) and len(coord) >= 2)]
+        ob.append(('disregistry across a slip plane normal to z, located by planepos . n, == the imposed slip at every coordinate', band(*[close(dis[i, j], S[j], 1e-9, 10.0) for i in range(len(coord)) for j in range(3)])))
         return ob
     return fn
 
@@ -215,6 +250,8 @@ def cases(tier, seed=0):
     for tr, pm in ((False, False), (True, False), (False, True)):
         cs.append(Case(f'slip_vector{"_translated" if tr else ""}{"_renumbered" if pm else ""}', h_slip(tr, pm), bind=BIND, kernels=KER, maxcases=32, budget_s=170, timeout_ms=20000, weight=3,
                        descr=f'slip_vector for a rigid slip of the upper half crystal{", both systems translated together" if tr else ""}{", atoms renumbered consistently" if pm else ""}'))
+    cs.append(Case('disregistry_normal_z', h_disregistry_z(), bind=BIND, kernels=KER, setup=setup, maxcases=32, budget_s=170, timeout_ms=20000, descr='disregistry across a slip plane normal to z located by planepos . n'))
+    cs.append(Case('slip_vector_wrapped', h_slip(False, False, (True, False, True), wrap=True), bind=BIND, kernels=KER, maxcases=32, max_paths=40, budget_s=170, timeout_ms=20000, weight=3, descr='slip_vector when the slipped system was wrapped back into the cell (pbc TFT)'))
     cs.append(Case('disregistry', h_disregistry(), bind=BIND, kernels=KER, setup=setup, maxcases=32, budget_s=170, timeout_ms=20000, descr='disregistry across the slip plane equals the imposed slip'))
     cs.append(Case('differential_displacement', h_dd(), bind=BIND, kernels=KER, maxcases=32, budget_s=170, timeout_ms=20000, descr='DifferentialDisplacement: u_j - u_i for every neighbour pair'))
     return cs
